@@ -1,7 +1,7 @@
 (** C08 — Continued writing is append-only.
     Property theorems only; each is closed by [exact] of a lemma proved in Proofs/. *)
 Require Import Sedpack.Model.Base Sedpack.Generated.GenMerge Sedpack.Model.Filler Sedpack.Model.Meta.
-Require Import Sedpack.Proofs.MergeBasics Sedpack.Proofs.MergeProofs.
+Require Import Sedpack.Proofs.MergeBasics Sedpack.Proofs.MergeProofs Sedpack.Proofs.HistoryProofs.
 
 (** The merge that ends every session never removes, adds or alters a shard entry of any list,
     never touches a shard file, and leaves every list outside the merged split as it was: what
@@ -22,6 +22,17 @@ Proof.
   exact (conj Hs (conj Hfiles Hf)).
 Qed.
 Print Assumptions c08_merge_keeps_every_shard_entry.
+
+(** Append-only over whole histories: whatever sessions follow (any kind, any directory, any writes), every shard file stored
+    and every shard entry of every list file present after a prefix of the history is still there — same list, same position,
+    same order, only possibly followed by new entries — after the whole history. *)
+Theorem c08_history_appends_only :
+  forall eps : nat, 1 <= eps -> forall (h1 h2 : list session) (st1 st2 : fsT * dinfo),
+    run_history eps h1 = Ok st1 -> run_history eps (h1 ++ h2) = Ok st2 ->
+    (forall d, exists ext, sl_files (load_or_create (fst st2) d) = sl_files (load_or_create (fst st1) d) ++ ext) /\
+    (forall d n v, lookup_shard d n (shards (fst st1)) = Some v -> lookup_shard d n (shards (fst st2)) = Some v).
+Proof. exact history_appends_only. Qed.
+Print Assumptions c08_history_appends_only.
 
 (** With the assertion on the number of same-level updates removed (generated switch), the
     histories that used to fail — a second session in the same sub-directory, a session in the
